@@ -434,6 +434,12 @@ fn order_case(out: &mut Out, stamps: &[Vec<u64>], x: u64) {
 pub fn main(a: &Args) -> i32 {
     let mut out = Out::create(&a.str("out", "walfmt.ndjson"));
     let thorough = a.str("tier", "quick") == "thorough";
+    if a.str("only", "") == "ghost" {
+        // the subset that C14 shares: a WAL payload that carries a well-formed entry, and the bit flips that lead the reader onto it
+        ghost_cases(&mut out);
+        println!("{{\"cases\": {}}}", out.finish());
+        return 0;
+    }
     let mut rng = rng(a.u64("seed", 1));
     let mut layouts: Vec<Vec<Vec<usize>>> = vec![
         vec![vec![1, 2, 7]],
